@@ -51,6 +51,22 @@ def gen_world(rng, n, for_sheet):
         W["sec"].append(0 if nsec == 0 or rng.random() < 0.3 else rng.randint(1, nsec))
     if rng.random() < 0.4:
         W["ext"][rng.randrange(n)] = [900 + rng.randint(0, 5)]
+    # sheets only: some top-level subtrees live in a SECOND WBS (home 2), so that lists of linked tasks mix
+    # rows of two WBSs and links leave the WBS in both directions
+    W["home"] = [1] * n
+    if for_sheet and len(roots) >= 2 and rng.random() < 0.4:
+        W["ext"] = [[] for _ in tasks]
+        for r in roots[rng.randint(0, 1):]:
+            if rng.random() < 0.6:
+                for t in range(1, n + 1):
+                    if _under(W, t, r):
+                        W["home"][t - 1] = 2
+        for _ in range(6):          # links that cross the two WBSs, in both directions
+            s, p = rng.randint(1, n), rng.randint(1, n)
+            if (W["home"][s - 1] != W["home"][p - 1] and es.legal_link(tasks, s, p)
+                    and p not in tasks[s - 1]["pre"]):
+                tasks[s - 1]["pre"].append(p)
+                W["pre"][s - 1].append(p)
     return W
 
 
@@ -88,8 +104,10 @@ def build(W, hook=None):
     # the last root (with its subtree and the links that touch it) arrives only after `hook` has run:
     # objects created by the hook (renderer views) live across a structural edit of the WBS
     late = W["roots"][-1] if hook is not None and len(W["roots"]) >= 2 else None
-    attach(w.roots, [r for r in W["roots"] if r != late])
+    home = W.get("home") or [1] * len(objs)
     other = pj.WBS()
+    attach(w.roots, [r for r in W["roots"] if r != late and home[r - 1] == 1])
+    attach(other.roots, [r for r in W["roots"] if r != late and home[r - 1] == 2])
     doomed = []
 
     def link(only_late):
@@ -122,6 +140,8 @@ def build(W, hook=None):
         w.remove(top)
     if hook is not None:
         return w, objs, out
+    if any(h == 2 for h in home):
+        return w, objs, other
     return w, objs
 
 
@@ -275,8 +295,15 @@ def render_events(rng, eid, W):
 # ---------------------------------------------------------------------------------------------
 DEFAULT_FIELDS = ["id", "name", "resource", "estimate", "spent", "start", "end", "predecessors"]
 FIELD_SETS = [None, ["id", "name"], ["name", "id", "parent", "predecessors"], ["id", "zz", "name", "successors"],
-              ["ID", "Name", "Estimate"], ["id", "name", "predecessors", "qq", "parent", "resource", "milestone"]]
+              ["ID", "Name", "Estimate"], ["id", "name", "predecessors", "qq", "parent", "resource", "milestone"],
+              # names that are members of Task but no stored attributes are unknown fields like any other
+              ["id", "wbs", "name", "children"], ["id", "name", "all_children", "clone", "successors"],
+              ["id", "to_dict", "Children", "name", "all_parents", "predecessors"], ["id", "successors", "predecessors"]]
 THEMES = [None, {"header_color": "92m", "level_colors": ["94m"]}, {"level_colors": []}]
+# a print call that is refused (theme without level colours) or one that succeeds, made BEFORE the judged one:
+# what a sheet looks like must not depend on earlier calls
+PRELUDES = [None, None, "refused", "other"]
+MEMBER_FIELDS = ("wbs", "children", "all_children", "clone", "to_dict", "Children", "all_parents")
 
 
 def decode_sheet(text, fields):
@@ -300,6 +327,7 @@ def decode_sheet(text, fields):
         fits = all(b is None or (b - 1 < len(ln) and ln[b - 1] == " " and ln[b - 2] == " ") for b in ends)
         x = {"hasid": "id" in low, "id": -1, "hasname": "name" in low, "indent": -1, "name": -1,
              "haspre": "predecessors" in low, "pre": [], "haspar": "parent" in low, "par": -1,
+             "hassuc": "successors" in low, "suc": [],
              "unknownempty": True, "fits": fits, "blank": False}
         for f, c in zip(low, cells):
             v = c.rstrip()
@@ -311,18 +339,19 @@ def decode_sheet(text, fields):
                 cands = [i for i, s in enumerate(NAMES) if (s or "").rstrip() == body]
                 x["name"] = cands[0] if cands else -1
                 x["blank"] = body == ""          # the indentation of an empty name cannot be seen
-            elif f == "predecessors":
+            elif f in ("predecessors", "successors"):
+                cell = x["pre" if f == "predecessors" else "suc"]
                 m = re.fullmatch(r"\[(.*)\]", v)
                 if not m:
-                    x["pre"] = [{"id": -1, "external": False}]
+                    cell.append({"id": -1, "external": False})
                 elif m.group(1):
                     for tok in m.group(1).split(","):
                         mm = re.fullmatch(r"(-?\d+)(\(external\))?", tok)
-                        x["pre"].append({"id": int(mm.group(1)), "external": bool(mm.group(2))} if mm
-                                        else {"id": -1, "external": False})
+                        cell.append({"id": int(mm.group(1)), "external": bool(mm.group(2))} if mm
+                                    else {"id": -1, "external": False})
             elif f == "parent":
                 x["par"] = 0 if v == "" else (int(v) if re.fullmatch(r"-?\d+", v) else -1)
-            elif f in ("zz", "qq"):
+            elif f in ("zz", "qq") or f in MEMBER_FIELDS:
                 x["unknownempty"] = x["unknownempty"] and v == ""
         out["rows"].append(x)
     return out
@@ -330,20 +359,55 @@ def decode_sheet(text, fields):
 
 def sheet_events(rng, eid, W):
     pj = common.pjplan()
-    w, objs = build(W)
+    built = build(W)
+    w, objs = built[0], built[1]
+    other = built[2] if len(built) > 2 else None
+    home = W["home"]
     n = len(objs)
     fields = rng.choice(FIELD_SETS)
     children = rng.random() < 0.7
     theme = rng.choice(THEMES)
-    how = rng.choice(["wbs", "task", "list", "repr_wbs", "repr_task", "tasks"])
+    how = rng.choice(["wbs", "task", "list", "repr_wbs", "repr_task", "tasks"] +
+                     (["other", "preds", "succs", "preds", "succs"] if other is not None else ["preds", "succs"]))
     ev = {"id": eid, "kind": "sheet", "prop": "20", "W": W, "out": "ok", "roots": [], "children": children,
           "nlines": 0, "widths": [], "header": True, "rows": []}
+    prelude = rng.choice(PRELUDES)
+    if prelude is not None:
+        try:
+            with contextlib.redirect_stdout(io.StringIO()):
+                if prelude == "refused":
+                    w.print(fields, True, {"header_color": "91m"})
+                else:
+                    objs[rng.randrange(n)].print(fields, True, theme)
+        except Exception:
+            pass
     buf = io.StringIO()
     try:
         with contextlib.redirect_stdout(buf):
             if how == "wbs":
                 w.print(fields, children, theme)
-                ev["roots"] = W["roots"]
+                ev["roots"] = [r for r in W["roots"] if home[r - 1] == 1]
+            elif how == "other":
+                other.print(fields, children, theme)
+                ev["roots"] = [r for r in W["roots"] if home[r - 1] == 2]
+            elif how in ("preds", "succs"):
+                # the list of a task's predecessors / successors: its rows may belong to different WBSs
+                cand = [t for t in range(1, n + 1) if not W["ext"][t - 1]]
+                linked = (lambda t: W["pre"][t - 1]) if how == "preds" else \
+                    (lambda t: [s_ for s_ in range(1, n + 1) if t in W["pre"][s_ - 1]])
+                mixed = [t for t in cand if len({home[x - 1] for x in linked(t)}) > 1]
+                t = rng.choice(mixed or cand) if cand else 0
+                if how == "preds" and t:
+                    objs[t - 1].predecessors.print(fields, False, theme)
+                    ev["roots"] = list(W["pre"][t - 1])
+                elif t:
+                    objs[t - 1].successors.print(fields, False, theme)
+                    ev["roots"] = [s_ for s_ in range(1, n + 1) if t in W["pre"][s_ - 1]]
+                else:
+                    w.print(fields, children, theme)
+                    ev["roots"] = [r for r in W["roots"] if home[r - 1] == 1]
+                if t:
+                    ev["children"] = False
             elif how == "task":
                 t = rng.randint(1, n)
                 objs[t - 1].print(fields, children, theme)
@@ -355,11 +419,11 @@ def sheet_events(rng, eid, W):
             elif how == "tasks":
                 # every task listed flat: children switched off so that each task appears once
                 w.tasks.print(fields, False, theme)
-                ev["roots"] = list(range(1, n + 1))
+                ev["roots"] = [t for t in range(1, n + 1) if home[t - 1] == 1]
                 ev["children"] = False
             elif how == "repr_wbs":
                 print(repr(w))
-                fields, ev["children"], ev["roots"] = None, True, W["roots"]
+                fields, ev["children"], ev["roots"] = None, True, [r for r in W["roots"] if home[r - 1] == 1]
             else:
                 t = rng.randint(1, n)
                 print(repr(objs[t - 1]))
